@@ -188,17 +188,43 @@ def depth_uses(w, fn, D0, upvar_fields):
     return out
 
 
+def _switches_on(body, local):
+    """All `switch` terminators that test `local` or a plain copy of it (named booleans, `a || b || c` chains)."""
+    aliases = {local}
+    for _ in range(4):
+        for b in body["blocks"]:
+            for st in b["s"]:
+                if st[0] == "=" and isinstance(st[1], int) and st[2][0] == "use" and st[2][1].get("k") in ("copy", "move") and \
+                        isinstance(st[2][1]["pl"], int) and st[2][1]["pl"] in aliases:
+                    aliases.add(st[1])
+    out = []
+    for b in body["blocks"]:
+        t = b["t"]
+        if t[0] == "switch" and t[1].get("k") in ("copy", "move") and isinstance(t[1]["pl"], int) and t[1]["pl"] in aliases:
+            out.append(t)
+    return out
+
+
+def _big_removes(body, switches, big_is_true):
+    if not switches:
+        return None
+    for t in switches:
+        false_bb = [tb for v, tb in t[2] if v == 0]
+        target = t[3] if big_is_true else (false_bb[0] if false_bb else None)
+        if target is None or not _removes(body, target):
+            return False
+    return True
+
+
 def _follow(w, fn, body, bi, res, big_true, line):
     """The comparison result `res` (computed in block bi): returned from a closure, or switched on."""
     t = body["blocks"][bi]["t"]
     if res == 0 and t[0] == "ret":
         return ("closure-result", fn, line, "big-true" if big_true else "big-false")
-    if t[0] == "switch" and t[1].get("k") in ("copy", "move") and _root(t[1]["pl"]) == res:
-        false_bb = [tb for v, tb in t[2] if v == 0]
-        true_bb = t[3]
-        target = true_bb if big_true else (false_bb[0] if false_bb else None)
-        if target is not None and _removes(body, target):
-            return ("lower-bound-removes", fn, line, "direct")
+    r = _big_removes(body, _switches_on(body, res), big_true)
+    if r is True:
+        return ("lower-bound-removes", fn, line, "direct")
+    if r is False:
         return ("big-depth-does-not-remove", fn, line, "direct")
     return ("unrecognised-result-flow", fn, line, "direct")
 
@@ -213,18 +239,14 @@ def _follow_closure(w, fn, body, bi, clo_local, big_true, line):
     if name not in ("is_some_and", "is_none_or"):
         return ("unrecognised-result-flow", fn, line, "closure:" + name)
     dest = t[1]["dest"] if isinstance(t[1]["dest"], int) else _root(t[1]["dest"])
-    nb = body["blocks"][t[1]["target"]]
-    t2 = nb["t"]
-    if t2[0] == "switch" and _root(t2[1]["pl"]) == dest:
-        false_bb = [tb for v, tb in t2[2] if v == 0]
-        # is_some_and(big-true closure): true => depth large; is_none_or(big-false closure): false => depth large
-        if name == "is_some_and" and big_true:
-            target = t2[3]
-        elif name == "is_none_or" and not big_true:
-            target = false_bb[0] if false_bb else None
-        else:
-            return ("unrecognised-polarity", fn, line, f"closure:{name}")
-        if target is not None and _removes(body, target):
-            return ("lower-bound-removes", fn, line, f"{name}")
+    if name == "is_some_and" and big_true:
+        r = _big_removes(body, _switches_on(body, dest), True)       # true => depth large
+    elif name == "is_none_or" and not big_true:
+        r = _big_removes(body, _switches_on(body, dest), False)      # false => depth large
+    else:
+        return ("unrecognised-polarity", fn, line, f"closure:{name}")
+    if r is True:
+        return ("lower-bound-removes", fn, line, f"{name}")
+    if r is False:
         return ("big-depth-does-not-remove", fn, line, f"{name}")
     return ("unrecognised-result-flow", fn, line, "closure")
